@@ -458,6 +458,10 @@ fn jobject_to_choice(obj: &Map<String, serde_json::Value>) -> Result<Rc<dyn RTOb
     let original_thread_index = as_usize(get(obj, "originalThreadIndex")?)?;
     let path_string_on_choice = as_str(get(obj, "targetPath")?)?;
     let choice_tags = jarray_to_tags(obj)?;
+    let is_invisible_default = obj
+        .get("isInvisibleDefault")
+        .and_then(|v| v.as_bool())
+        .unwrap_or(false);
 
     Ok(Rc::new(Choice::new_from_json(
         path_string_on_choice,
@@ -466,6 +470,7 @@ fn jobject_to_choice(obj: &Map<String, serde_json::Value>) -> Result<Rc<dyn RTOb
         index,
         original_thread_index,
         choice_tags,
+        is_invisible_default,
     )))
 }
 
